@@ -22,7 +22,7 @@ Proof. exact bucket_cap. Qed.
    configuration is interval > 0; the other two cases are (B4) and (B5). *)
 Theorem C15_bucket_window : forall c b ops t0 t1,
   0 < interval c -> fresh b t0 -> Forall (op_time_le t1) ops ->
-  admitted c b ops <= balance b + refill c * ((t1 - t0) / interval c + 1).
+  granted c b ops <= balance b + refill c * ((t1 - t0) / interval c + 1).
 Proof. exact bucket_window. Qed.
 
 (* the hypothesis `fresh` holds at every observation point: right after creation and right
@@ -35,25 +35,25 @@ Proof. intros c b initial t0 H. split; [apply fresh_after_refresh|apply fresh_ne
 Theorem C15_bucket_window_history : forall c initial tc h1 t0 ops t1,
   0 < interval c -> Forall (op_time_le t1) ops ->
   let b0 := run c (new c initial tc) (h1 ++ [Check t0]) in
-  admitted c b0 ops <= balance b0 + refill c * ((t1 - t0) / interval c + 1)
+  granted c b0 ops <= balance b0 + refill c * ((t1 - t0) / interval c + 1)
   /\ balance b0 <= maxb c.
 Proof. exact bucket_window_history. Qed.
 
 (* (B3) no interval boundary inside the window: a burst takes at most the balance *)
 Theorem C15_bucket_burst : forall c b ops t1,
   0 < interval c -> fresh b t1 -> Forall (op_time_le t1) ops ->
-  admitted c b ops <= balance b.
+  granted c b ops <= balance b.
 Proof. exact bucket_burst. Qed.
 
 (* (B4) interval = 0: at most one refill per check *)
 Theorem C15_bucket_zero_interval : forall c b ops,
-  interval c = 0 -> admitted c b ops <= balance b + refill c * count_checks ops.
+  interval c = 0 -> granted c b ops <= balance b + refill c * count_checks ops.
 Proof. exact bucket_zero_interval. Qed.
 
 (* (B5) unrepresentable deadline: no further refill, ever; and this is exactly what happens
    at creation when now + interval is not a representable instant *)
 Theorem C15_bucket_no_deadline : forall c b ops,
-  deadline b = None -> admitted c b ops <= balance b.
+  deadline b = None -> granted c b ops <= balance b.
 Proof. exact bucket_no_deadline. Qed.
 
 Theorem C15_bucket_new_unrepresentable : forall c initial now,
@@ -252,11 +252,11 @@ Check (C15_bucket_cap : forall c initial now ops1 ops2,
   /\ balance (run c (new c initial now) (ops1 ++ ops2)) <= maxb c).
 Check (C15_bucket_window : forall c b ops t0 t1,
   0 < interval c -> fresh b t0 -> Forall (op_time_le t1) ops ->
-  admitted c b ops <= balance b + refill c * ((t1 - t0) / interval c + 1)).
+  granted c b ops <= balance b + refill c * ((t1 - t0) / interval c + 1)).
 Check (C15_bucket_zero_interval : forall c b ops,
-  interval c = 0 -> admitted c b ops <= balance b + refill c * count_checks ops).
+  interval c = 0 -> granted c b ops <= balance b + refill c * count_checks ops).
 Check (C15_bucket_no_deadline : forall c b ops,
-  deadline b = None -> admitted c b ops <= balance b).
+  deadline b = None -> granted c b ops <= balance b).
 
 Check (C15_queue_bound : forall c L m ops,
   c_discard c = Some (L, m) -> forallb (fun o => negb (is_update o)) ops = true ->
@@ -298,8 +298,8 @@ Example ex_bucket_tight :
   (* the bound of (B2) is attained: deadline just after t0 = 5, five boundaries in (5, 406] *)
   let c := mkCfg 2 100 100 18446744073709551615 9223372036000000000000000000 in
   fresh (mkB 1 (Some 6)) 5
-  /\ admitted c (mkB 1 (Some 6)) (Bump :: Check 406 :: repeat Bump 20) = 1 + 2 * ((406 - 5) / 100 + 1)
-  /\ admitted ex_cfg (new ex_cfg (Some 1) 5) (Bump :: Check 350 :: repeat Bump 20) = 7.
+  /\ granted c (mkB 1 (Some 6)) (Bump :: Check 406 :: repeat Bump 20) = 1 + 2 * ((406 - 5) / 100 + 1)
+  /\ granted ex_cfg (new ex_cfg (Some 1) 5) (Bump :: Check 350 :: repeat Bump 20) = 7.
 Proof. cbn zeta. split; [reflexivity|]. split; vm_compute; reflexivity. Qed.
 Example ex_bucket_zero_interval :
   bucket_run (mkCfg 3 0 4 18446744073709551615 9223372036000000000000000000) (Some 0) 7
